@@ -41,12 +41,21 @@ def meet(fs):
         return Facts()
     out = Facts(all(f.su for f in fs), all(f.nonempty for f in fs),
                 fs[0].dtype if len({f.dtype for f in fs}) == 1 else UNK,
-                fs[0].prov if len({f.prov for f in fs}) == 1 else ("mixed",) + tuple(sorted({f.prov for f in fs}, key=str)),
+                fs[0].prov if len({f.prov for f in fs}) == 1 else ("mixed",) + tuple(sorted({(x,) for f in fs for x in _leaves(f.prov)}, key=str)),
                 [w for f in fs for w in f.why], [a for f in fs for a in f.assumed], any(f.maybe_none for f in fs))
     out.sorted_only = any(f.sorted_only for f in fs) and all(f.su or f.sorted_only for f in fs)
     ds = [f.defect for f in fs if f.defect]
     out.defect = ds[0] if ds else None
     return out
+
+
+def _leaves(p):
+    if p[0] == "mixed":
+        out = []
+        for q in p[1:]:
+            out += _leaves(q)
+        return out
+    return [p[0]]
 
 
 def is_call(t, name):
@@ -236,6 +245,16 @@ class Analyzer:
             return f
         if op == "sub" and self.is_index(t.args[0]) and t.args[1].op != "slice":
             return Facts(True, True, U32, ("inherited", t.args[0]), ["entry of a well-formed index"])
+        if op == "call" and method(t) == "get" and t.args[1]:
+            from . import own
+
+            els = own._elem_terms1(recv(t), own.OwnCtx(self.I))
+            if els is not None:
+                parts = [self.facts(e, guards, d) for e in els]
+                parts = [p for p in parts if p is not None]
+                f = meet(parts) if parts else Facts(True, True, U32, ("inherited", recv(t)), ["nothing stored yet"])
+                f = f.copy(maybe_none=not self._none_excluded(t, guards))
+                return f
         # values of a dict of entries built earlier in this activation
         if op in ("dval", "iter", "unpack", "sub") and not (op == "sub" and self._is_array_index(t)):
             els = self._container_elements(t)
@@ -261,16 +280,16 @@ class Analyzer:
         if op == "sub" and tm.is_const(t.args[1], 0):
             b = t.args[0]
             if is_call(b, "numpy.where") and len(b.args[1]) == 1:
-                return Facts(True, False, I64, ("where", b.args[1][0]), ["numpy.where(mask)[0] is strictly increasing"])
+                return Facts(True, False, I64, ("where",), ["numpy.where(mask)[0] is strictly increasing"])
             if method(b) == "nonzero":
-                return Facts(True, False, I64, ("nonzero", recv(b)), ["mask.nonzero()[0] is strictly increasing"])
+                return Facts(True, False, I64, ("nonzero",), ["mask.nonzero()[0] is strictly increasing"])
             if is_call(b, "numpy.nonzero"):
-                return Facts(True, False, I64, ("nonzero", b.args[1][0]), ["numpy.nonzero(mask)[0] is strictly increasing"])
+                return Facts(True, False, I64, ("nonzero",), ["numpy.nonzero(mask)[0] is strictly increasing"])
         if is_call(t, "numpy.arange"):
             dt = tm.kwarg(t, "dtype")
             return Facts(True, False, U32 if self.is_rowid_dtype(dt) else I64, ("arange",), ["arange is strictly increasing"])
         if is_call(t, "numpy.flatnonzero"):
-            return Facts(True, False, I64, ("nonzero", t.args[1][0]), ["flatnonzero is strictly increasing"])
+            return Facts(True, False, I64, ("nonzero",), ["flatnonzero is strictly increasing"])
         if is_call(t, "numpy.unique") and len(t.args[1]) == 1:
             f = self.facts(t.args[1][0], guards, d) or Facts()
             return Facts(True, f.nonempty, f.dtype, f.prov, ["numpy.unique sorts and de-duplicates"])
@@ -307,7 +326,9 @@ class Analyzer:
             args = [a for a in args if a is not None]
             su = all(a.su or a.maybe_none for a in args)
             wrapper = nm.split(":")[1] in ("union", "intersection", "difference")
-            return Facts(su, wrapper, U32, ("kernel", nm.split(":")[1]) + tuple(a.prov for a in args),
+            if "union" in nm and any(a.nonempty for a in args):
+                wrapper = True  # a union with a non-empty operand is non-empty
+            return Facts(su, wrapper, U32, ("kernel", nm.split(":")[1]),
                          ["set kernel over strictly increasing operands (C08)"], [x for a in args for x in a.assumed], maybe_none=wrapper)
         # ---- P4 shift
         if op == "binop" and t.args[0] == "+":
@@ -317,7 +338,7 @@ class Analyzer:
                 f = self.facts(arr, guards, d)
                 if f is None:
                     return None
-                return f.copy(prov=("shifted", f.prov, sc), why=f.why + ["adding a scalar keeps the order"])
+                return f.copy(prov=("shifted", (f.prov[0],), sc), why=f.why + ["adding a scalar keeps the order"])
         # ---- P5/P6/P8 indexing
         if op == "sub":
             base, idx = t.args
@@ -332,7 +353,7 @@ class Analyzer:
                 if f is None:
                     return None
                 ne = self._mask_nonempty(idx, guards) and True
-                return f.copy(nonempty=bool(ne), prov=("subset", f.prov), why=f.why + ["boolean-mask selection keeps order and uniqueness"])
+                return f.copy(nonempty=bool(ne), prov=("subset", f.prov[0]), why=f.why + ["boolean-mask selection keeps order and uniqueness"])
         # sorted in place (assume_unique path): concatenate + .sort()
         if is_call(t, "numpy.concatenate") and self._sorted_in_place(t):
             parts = self._concat_parts(t)
@@ -354,7 +375,7 @@ class Analyzer:
                 return None
             ordered = self._below(fa, fb)
             return Facts(fa.su and fb.su and ordered, fa.nonempty or fb.nonempty,
-                         U32 if fa.dtype == U32 and fb.dtype == U32 else UNK, ("append", fa.prov, fb.prov),
+                         U32 if fa.dtype == U32 and fb.dtype == U32 else UNK, ("append", fa.prov[0], fb.prov[0]),
                          ["append(a, b): every id of a is below the shift, every id of b at or above it" if ordered else "append(a, b) without a proof that max(a) < min(b)"],
                          fa.assumed + fb.assumed)
         if op == "alloc" and t.args[0] == "list":
